@@ -1,7 +1,7 @@
 """Def-use origins: print where a value comes from as an expression over parameters,
 call results and constants, looking through moves, copies, reborrows, `?`, deref/clone/into."""
 import re
-from .facts import callee_path, callee_name, _strip_generics, short_path
+from .facts import callee_path, callee_name, callee_resolved, _strip_generics, short_path, module_private
 
 TRANSPARENT = re.compile(
     r'(::deref$|::deref_mut$|::clone$|::into$|::from$|::as_ref$|::as_mut$|::borrow$|::borrow_mut$|::as_slice$|'
@@ -12,7 +12,11 @@ NOISE_VARIANTS = {'Continue', 'Break', 'Some', 'Ok', 'Err', 'None'}
 
 
 class Origins:
+    INLINE_PRIVATE = True       # print a call to a module-private, infallible helper as the origin of what the helper returns
+
     def __init__(self, body, max_depth=12, resolve_upvars=False):
+        self.param_subst = None
+        self._inl_depth = 0
         self.b = body
         self.fn = body.fn
         self.max_depth = max_depth
@@ -86,6 +90,8 @@ class Origins:
         if depth > self.max_depth or l in seen:
             return self.b.names.get(l, '_%d' % l)
         if 1 <= l <= self.b.argc:
+            if self.param_subst is not None and l in self.param_subst:
+                return self.param_subst[l]
             nm = self.b.names.get(l)
             if nm is None:
                 nm = 'arg%d' % l
@@ -161,9 +167,43 @@ class Origins:
         name = callee_path(t)
         if TRANSPARENT.search(name) and t['args']:
             return self.op_str(t['args'][0], depth, seen)
+        inl = self._inline_private(t, depth, seen)
+        if inl is not None:
+            return inl
         cn = callee_name(t) or '?'
         args = ', '.join(self.op_str(a, depth + 1, seen) for a in t['args'][:5])
         return '%s(%s)' % (cn, args)
+
+    def _inline_private(self, t, depth, seen):
+        """`helper(a, b)` -> origin of the helper's return value with its parameters replaced by the origins of a, b -- only for
+        helpers visible in one module only, infallible (no Result / Option), small and non-recursive. Extracting such a helper from a
+        function, or inlining it back, leaves the origin strings of the callers unchanged."""
+        if not Origins.INLINE_PRIVATE or self._inl_depth >= 2 or depth > 6:
+            return None
+        try:
+            P = self.b.P
+            f = P.fns.get(callee_resolved(t)) or P.fns.get(callee_path(t))
+            if f is None or f is self.fn or f['kind'] == 'Closure' or not module_private(f) or len(f['blocks']) > 60:
+                return None
+            if f['argc'] != len(t['args']) or re.match(r'^(std|core)::(result::Result|option::Option)<', f['ret']) or f['ret'] in ('()', 'bool'):
+                return None
+            args = [self.op_str(a, depth + 1, seen) for a in t['args']]
+            sub = Origins(P.body(f), self.max_depth, resolve_upvars=self.resolve_upvars)
+            sub._inl_depth = self._inl_depth + 1
+            marks = ['\x00%d\x00' % i for i in range(len(args))]
+            sub.param_subst = {i + 1: marks[i] for i in range(len(args))}
+            s = sub.local_str(0, depth + 1)
+            if not s or len(s) > 400 or re.fullmatch(r'_\d+', s):
+                return None
+            # only when nothing is lost: every argument shows up in what the helper returns (a helper that BRANCHES on an argument and
+            # returns constants keeps its call form)
+            if any(m not in s for m in marks):
+                return None
+            for m, a in zip(marks, args):
+                s = s.replace(m, a)
+            return s if len(s) <= 600 else None
+        except Exception:
+            return None
 
     def arg_str(self, term, i):
         if i >= len(term['args']):
